@@ -437,7 +437,7 @@ func getEmailFromJSON(json *simplejson.Json) (string, error) {
 	if err != nil || email == "" {
 		otherMails, otherMailsErr := json.Get("otherMails").Array()
 		if len(otherMails) > 0 {
-			email = otherMails[0].(string)
+			email, _ = otherMails[0].(string)
 		}
 		err = otherMailsErr
 	}
